@@ -503,3 +503,76 @@ package proxy
 //@   at-store currentState: assert called(st) && res(st) && value == encryptionResponseReceivedLoginState
 //@   ensures [wrong-state-or-repeat-admits-nobody] called(st) && (!res(st) ==> !called(admit) && !called(activate) && !called(dec) && !called(enc) && !called(join))
 //@   ensures [no-admission-without-a-confirmed-join] called(admit) == called(activate)
+
+// ---- C16: one attempt in flight, one current backend ------------------------------------------------------------------
+// The player's current and in-flight server connections live under player.mu.
+//@ guarded_by connectedPlayer.mu : connectedServer_, connInFlight
+
+// The admission check reads the state in one critical section and changes nothing: "in progress" iff an attempt is in
+// flight or the current server has not completed its join; "already connected" iff the current server is the requested
+// one; otherwise the request may proceed.
+//@ func (*connectionRequest).checkServer
+//@   props C16
+//@   at-call Load as joined: assert held(c.player.mu) != none
+//@   at-call RegisteredServerEqual as same: assert held(c.player.mu) != none && c.player.connInFlight == nil && c.player.connectedServer_ != nil && arg1 == server
+//@   ensures [already-connected] called(same) && res(same) ==> !ok && s == AlreadyConnectedConnectionStatus
+//@   ensures [may-proceed-only-if-neither] ok ==> s == 0 && (!called(same) || !res(same)) && (!called(joined) || res(joined))
+
+// A new attempt becomes the connection in flight only if none is (check and store in ONE critical section); a request
+// that loses is reported as "in progress" and starts nothing. Clearing is unconditional (nil only).
+//@ func (*connectedPlayer).claimInFlightConnection
+//@   props C16
+//@   at-store connInFlight: assert [claimed-only-if-free] held(p.mu) == wlocked && p.connInFlight == nil && value == s
+//@ func (*connectedPlayer).setInFlightConnection
+//@   props C16
+//@   at-store connInFlight: assert held(p.mu) == wlocked && value == s
+//@ func (*connectedPlayer).resetInFlightConnection
+//@   props C16
+//@   at-call setInFlightConnection as clr: assert [only-clears] arg0 == p && arg1 == nil
+//@ func (*connectionRequest).resetIfInFlightIs
+//@   props C16
+//@   at-store connInFlight: assert [clears-only-its-own-attempt] held(c.player.mu) == wlocked && value == nil && c.player.connInFlight == establishedConnection
+//@ func plainConnectionResult
+//@   props C16
+//@   ensures [a-safe-result-with-that-status] result != nil && result.status == status && result.safe
+// internalConnect: both admission checks (requested and possibly redirected destination) come before the claim; the
+// dial happens only for the request that claimed; its claim is released afterwards if still its own.
+//@ func (*connectionRequest).internalConnect
+//@   props C16
+//@   at-call checkServer#1 as chk1: assert arg0 == c && arg1 == c.server
+//@   at-call Server as dest
+//@   at-call checkServer#2 as chk2: assert [redirected-destination-is-checked-too] called(chk1) && res(chk1, 1) && arg0 == c && arg1 == res(dest)
+//@   at-call claimInFlightConnection as claim: assert called(chk2) && res(chk2, 1) && arg0 == c.player
+//@   at-call connect as dial: assert [only-the-claiming-request-dials] called(claim) && res(claim) && arg0 == arg(claim, 1)
+//@   at-call resetIfInFlightIs as release: assert called(claim) && res(claim) && arg1 == arg(claim, 1)
+//@   ensures [refused-requests-start-nothing] (called(chk1) && !res(chk1, 1)) || (called(chk2) && !res(chk2, 1)) || (called(claim) && !res(claim)) ==> !called(dial) && err == nil && result != nil
+//@   ensures [lost-claim-is-reported-in-progress] called(claim) && !res(claim) ==> result.status == InProgressConnectionStatus
+
+// Becoming the current server: the new connection replaces the current one, the fallback index restarts, and the
+// in-flight slot is cleared iff it held this very connection - all in one critical section.
+//@ func (*connectedPlayer).setConnectedServer
+//@   props C16
+//@   at-store connectedServer_: assert held(p.mu) == wlocked && value == conn
+//@   at-store connInFlight: assert [clears-only-the-connection-that-became-current] held(p.mu) == wlocked && value == nil && p.connInFlight == conn
+//@   at-store tryIndex: assert value == 0
+
+// Player lists: a backend play session adds the player to ITS server's list when activated and removes it when that
+// session ends; nobody else touches the lists.
+//@ census add : only-in (*backendPlaySessionHandler).Activated ; props C16
+//@ census remove : only-in (*backendPlaySessionHandler).Disconnected ; props C16
+//@ func (*backendPlaySessionHandler).Activated
+//@   props C16
+//@   at-call add as join: assert arg0 == b.serverConn.server.players && len(arg1) == 1 && arg1[0] == b.serverConn.player
+//@ func (*backendPlaySessionHandler).Disconnected
+//@   props C16
+//@   at-call remove as leave: assert arg0 == b.serverConn.server.players && len(arg1) == 1 && arg1[0] == b.serverConn.player
+
+// Dropping a backend connection closes it at most once: only while one is recorded, which is then forgotten.
+//@ func (*serverConnection).disconnect0
+//@   props C16
+//@   at-call CloseUnknown as cl: assert [close-only-a-recorded-connection] s.connection != nil && arg0 == s.connection
+//@   at-store connection: assert value == nil
+//@   ensures [forgotten-afterwards] s.connection == nil
+//@ func (*serverConnection).disconnect
+//@   props C16
+//@   at-call disconnect0 as d: assert held(s.mu) == wlocked && arg0 == s
